@@ -334,9 +334,11 @@ void Transportation1dSolver::checkSolutionOptimal(const Solution &alloc) const {
     usedCap[j] += a;
   }
 
+  // Marker for sinks from which nothing can be moved
+  const long long noMove = std::numeric_limits<long long>::min();
+
   // Compute the gain of moving sources to the right
-  std::vector<long long> gainRight(nbSinks(),
-                                   std::numeric_limits<long long>::min());
+  std::vector<long long> gainRight(nbSinks(), noMove);
   for (auto [i, j, a] : alloc) {
     if (j + 1 < nbSinks()) {
       long long gain = cost(i, j) - cost(i, j + 1);
@@ -345,8 +347,7 @@ void Transportation1dSolver::checkSolutionOptimal(const Solution &alloc) const {
   }
 
   // Compute the gain of moving sources to the left
-  std::vector<long long> gainLeft(nbSinks(),
-                                  std::numeric_limits<long long>::min());
+  std::vector<long long> gainLeft(nbSinks(), noMove);
   for (auto [i, j, a] : alloc) {
     if (j - 1 >= 0) {
       long long gain = cost(i, j) - cost(i, j - 1);
@@ -368,7 +369,10 @@ void Transportation1dSolver::checkSolutionOptimal(const Solution &alloc) const {
         snk = nxt - 1;
         break;
       }
-      gain += gainRight[nxt];
+      // No move is possible through a sink that has nothing to send further
+      gain = (gain == noMove || gainRight[nxt] == noMove)
+                 ? noMove
+                 : gain + gainRight[nxt];
     }
   }
 
@@ -386,7 +390,10 @@ void Transportation1dSolver::checkSolutionOptimal(const Solution &alloc) const {
         snk = nxt + 1;
         break;
       }
-      gain += gainLeft[nxt];
+      // No move is possible through a sink that has nothing to send further
+      gain = (gain == noMove || gainLeft[nxt] == noMove)
+                 ? noMove
+                 : gain + gainLeft[nxt];
     }
   }
 }
